@@ -97,15 +97,15 @@ struct _table_arm64 table_arm64[] =
   { "bfc",       0xce200000, 0x7f8003e0, 3, 'b', OP_REG_BITFIELD },
 
   // C2.4.6 Shift (register).
-  { "lslv",      0x1ac02800, 0x7fe0fc00, 3, 'b', OP_MATH_R_R_R },
+  { "lslv",      0x1ac02000, 0x7fe0fc00, 3, 'b', OP_MATH_R_R_R },
   { "lsrv",      0x1ac02400, 0x7fe0fc00, 3, 'b', OP_MATH_R_R_R },
   { "asrv",      0x1ac02800, 0x7fe0fc00, 3, 'b', OP_MATH_R_R_R },
   { "rorv",      0x1ac02c00, 0x7fe0fc00, 3, 'b', OP_MATH_R_R_R },
 
-  { "lsl",       0x1ac02800, 0x7fe0fc00, 3, 'b', OP_MATH_R_R_R },
-  { "lsr",       0x1ac02800, 0x7fe0fc00, 3, 'b', OP_MATH_R_R_R },
+  { "lsl",       0x1ac02000, 0x7fe0fc00, 3, 'b', OP_MATH_R_R_R },
+  { "lsr",       0x1ac02400, 0x7fe0fc00, 3, 'b', OP_MATH_R_R_R },
   { "asr",       0x1ac02800, 0x7fe0fc00, 3, 'b', OP_MATH_R_R_R },
-  { "ror",       0x1ac02800, 0x7fe0fc00, 3, 'b', OP_MATH_R_R_R },
+  { "ror",       0x1ac02c00, 0x7fe0fc00, 3, 'b', OP_MATH_R_R_R },
 
   { "lsl",       0x13007c00, 0x7f80fc00, 3, 'b', OP_MATH_R_R_IMMR },
   { "lsr",       0x13007c00, 0x7f80fc00, 3, 'b', OP_MATH_R_R_IMMR },
